@@ -37,7 +37,10 @@ class Contract:
         return bool(self.calls(fname))
 
     def loop_specs(self, ordinal):
-        res = {'inv': [], 'mod': None, 'unroll': None}
+        res = {'inv': [], 'mod': None, 'unroll': None, 'item': []}
+        for c in self.calls('loop_item_fact'):
+            if c.args[0].value == ordinal:
+                res['item'].append(c.args[1])
         for c in self.calls('loop_invariant'):
             if c.args[0].value == ordinal:
                 res['inv'].append(c.args[1] if len(c.args) == 2 else (c.args[1], c.args[2]))
@@ -133,7 +136,7 @@ class ContractIndex:
         return missing
 
 
-SPEC_FUNCS = {'uf', 'ghost_const', 'same_dict_old', 'is_heap_obj', 'owned', 'take', 'last', 'old', 'implies', 'iff', 'fresh', 'seq', 'dhas', 'dget', 'dlen', 'forall', 'exists', 'type_is',
+SPEC_FUNCS = {'is_function', 'uf', 'ghost_const', 'same_dict_old', 'is_heap_obj', 'owned', 'take', 'last', 'old', 'implies', 'iff', 'fresh', 'seq', 'dhas', 'dget', 'dlen', 'forall', 'exists', 'type_is',
               'is_str', 'is_int', 'is_none', 'is_bool', 'is_ref', 'calls', 'isinstance', 'len', 'ite', 'cls_of',
               'attr', 'same_dict', 'same_seq', 'sval', 'ival', 'unchanged', 'allocated', 'subseq', 'contains',
               'prefixof', 'suffixof', 'strlen', 'substr', 'str_contains', 'str_indexof', 'int_of', 'empty_seq',
@@ -268,8 +271,7 @@ class SpecMixin:
         idx = self.sev(st, node.slice, env, cmod)
         if isinstance(base, SeqTermV):
             i = self.spec_int(st, idx)
-            ln = z3.Length(base.term)
-            return SV(base.term[z3.If(i < 0, i + ln, i)])
+            return SV(base.term[i])  # specification indices are non-negative (no Python wrap-around)
         if isinstance(base, TupleV):
             ci = self.const_int(idx)
             return base.items[ci]
@@ -278,7 +280,7 @@ class SpecMixin:
             if c is not None and c.qualname in ('list', 'tuple'):
                 s = self.list_seq(st, r_of(base.term))
                 i = self.spec_int(st, idx)
-                return SV(s[z3.If(i < 0, i + z3.Length(s), i)])
+                return SV(s[i])
             return SV(self.dict_get(st, r_of(base.term), self.to_term(st, idx)))
         raise Unsupported('spec subscript', node)
 
@@ -703,6 +705,9 @@ class SpecMixin:
     def sf_is_tuple(self, st, node, env, cmod):
         return self._is_cls(st, node, env, cmod, ['tuple'])
 
+    def sf_is_function(self, st, node, env, cmod):
+        return self._is_cls(st, node, env, cmod, ['function', 'method'])
+
     def sf_is_set(self, st, node, env, cmod):
         return self._is_cls(st, node, env, cmod, ['set', 'frozenset'])
 
@@ -793,7 +798,15 @@ class SpecMixin:
                 c = smt.fresh('q' + p.arg, Val)
                 e[p.arg] = SV(c)
             bound.append(c)
+        n0 = len(st.pc)
+        olds = [(o_, len(o_.pc)) for o_ in [env.get('__old__')] if o_ is not None]
         body = self.spec_bool(st, self.sev(st, lam.body, e, cmod))
+        # side facts emitted while evaluating the body mention the bound variables: re-add them universally closed
+        for target, start in [(st, n0)] + olds:
+            side = target.pc[start:]
+            del target.pc[start:]
+            for f in side:
+                target.assume(z3.ForAll(bound, f) if smt.mentions(f, bound) else f)
         return BoolTermV(z3.ForAll(bound, body) if universal else z3.Exists(bound, body))
 
     def sf_forall(self, st, node, env, cmod):
@@ -876,7 +889,7 @@ class SpecMixin:
     def sf_is_heap_obj(self, st, node, env, cmod):
         (a,) = self._args(st, node, env, cmod)
         t = self.to_term(st, a)
-        return BoolTermV(AND(is_ref(t), r_of(t) >= I(self.first_heap_id())))
+        return BoolTermV(AND(is_ref(t), r_of(t) >= I(self.index.first_free_id)))
 
     def sf_uf(self, st, node, env, cmod):
         """uf('name', a, b, ...): an uninterpreted function of Val arguments (result Val)"""
